@@ -4,9 +4,23 @@ open Vcore
 (* ---------------- C14 persistence: glue between scripts and the extracted model ---------------- *)
 let ps_n_of_int n = if n = 0 then N0 else Npos (pos_of_int n)
 let ps_int_of_n = function N0 -> 0 | Npos p -> int_of_pos p
-let ps_key_of_string s = List.map (fun c -> ps_n_of_int (Char.code c)) (List.of_seq (String.to_seq s))
-let ps_string_of_key k = String.init (List.length k) (fun i -> Char.chr (ps_int_of_n (List.nth k i)))
-let ps_key_hex k = hex_enc (ps_string_of_key k)
+(* strings <-> byte lists without deep recursion (values of several MiB); the 256 byte values are shared *)
+let ps_byte_tab = Array.init 256 ps_n_of_int
+let ps_key_of_string s =
+  let r = ref [] in
+  for i = String.length s - 1 downto 0 do r := ps_byte_tab.(Char.code s.[i]) :: !r done; !r
+let ps_string_of_key k =
+  let b = Buffer.create 64 in
+  List.iter (fun n -> Buffer.add_char b (Char.chr (ps_int_of_n n))) k; Buffer.contents b
+let ps_hex s =
+  if s = "" then "-" else begin
+    let b = Buffer.create (2 * String.length s) in
+    String.iter (fun c -> Buffer.add_string b (Printf.sprintf "%02x" (Char.code c))) s; Buffer.contents b end
+let ps_unhex s =
+  if s = "-" then "" else begin
+    let hv c = match c with '0'..'9' -> Char.code c - 48 | 'a'..'f' -> Char.code c - 87 | 'A'..'F' -> Char.code c - 55 | _ -> failwith "bad hex" in
+    String.init (String.length s / 2) (fun i -> Char.chr (16 * hv s.[2 * i] + hv s.[2 * i + 1])) end
+let ps_key_hex k = ps_hex (ps_string_of_key k)
 
 (* decimals: "12.5" <-> (125, 1) normalised *)
 let ps_num_of_string s =
@@ -28,14 +42,43 @@ let ps_string_of_num m k =
   while String.length !fp > 0 && !fp.[String.length !fp - 1] = '0' do fp := String.sub !fp 0 (String.length !fp - 1) done;
   (if neg then "-" else "") ^ ip ^ (if !fp = "" then "" else "." ^ !fp)
 
+(* compact forms for large values - the same rules as harness/ops_ps.cpp:
+   R<n>x<hex> (string > 64 bytes with a period <= 8), G<n>(v) (array > 16 elements, all equal),
+   K<n>(v) (dictionary k000000.. > 16 entries, all values equal); W<k>(v) / V<k>(v) input only *)
+let ps_canon_str s =
+  let n = String.length s in
+  let res = ref None in
+  if n > 64 then begin
+    let p = ref 1 in
+    while !res = None && !p <= 8 do
+      let ok = ref true and i = ref !p in
+      while !ok && !i < n do (if s.[!i] <> s.[!i - !p] then ok := false); incr i done;
+      if !ok then res := Some (Printf.sprintf "R%dx%s" n (ps_hex (String.sub s 0 !p)));
+      incr p
+    done
+  end;
+  match !res with Some r -> r | None -> "S" ^ ps_hex s
+
+let ps_kname i = Printf.sprintf "k%06d" i
+
 let rec ps_canon v =
   match v with
   | PsEmpty -> "N"
   | PsBool b -> if b then "T" else "F"
   | PsNum (m, k) -> "D" ^ ps_string_of_num m k
-  | PsStr s -> "S" ^ ps_key_hex s
-  | PsArr l -> "A(" ^ String.concat "," (List.map ps_canon l) ^ ")"
-  | PsDict d -> "M(" ^ String.concat "," (List.map (fun (k, x) -> ps_key_hex k ^ ":" ^ ps_canon x) d) ^ ")"
+  | PsStr s -> ps_canon_str (ps_string_of_key s)
+  | PsArr l ->
+    let items = List.rev (List.rev_map ps_canon l) in
+    (match items with
+     | c0 :: _ when List.length items > 16 && List.for_all (fun c -> c = c0) items -> Printf.sprintf "G%d(%s)" (List.length items) c0
+     | _ -> "A(" ^ String.concat "," items ^ ")")
+  | PsDict d ->
+    let items = List.rev (List.rev_map (fun (k, x) -> (ps_string_of_key k, ps_canon x)) d) in
+    (match items with
+     | (_, c0) :: _ when List.length items > 16 && List.for_all (fun (_, c) -> c = c0) items
+                         && (let i = ref (-1) in List.for_all (fun (k, _) -> incr i; k = ps_kname !i) items) ->
+       Printf.sprintf "K%d(%s)" (List.length items) c0
+     | _ -> "M(" ^ String.concat "," (List.rev (List.rev_map (fun (k, c) -> ps_hex k ^ ":" ^ c) items)) ^ ")")
   | PsObj (tn, _) -> "O" ^ ps_key_hex tn
 
 (* sorted insert (bytewise) while parsing, as Dictionary::Set does *)
@@ -54,6 +97,10 @@ let ps_parse s =
     let j = ref !i in
     while !j < String.length s && s.[!j] <> ',' && s.[!j] <> ')' && s.[!j] <> ':' do incr j done;
     let t = String.sub s !i (!j - !i) in i := !j; t in
+  let cnt () =
+    let j = ref !i in
+    while !j < String.length s && s.[!j] >= '0' && s.[!j] <= '9' do incr j done;
+    let n = int_of_string (String.sub s !i (!j - !i)) in i := !j; n in
   let rec value () =
     let c = s.[!i] in
     incr i;
@@ -62,8 +109,14 @@ let ps_parse s =
     | 'T' -> PsBool true
     | 'F' -> PsBool false
     | 'D' -> let (m, k) = ps_num_of_string (tok ()) in PsNum (m, k)
-    | 'S' -> PsStr (ps_key_of_string (hex_dec (tok ())))
-    | 'O' -> PsObj (ps_key_of_string (hex_dec (tok ())), [])
+    | 'S' -> PsStr (ps_key_of_string (ps_unhex (tok ())))
+    | 'R' ->
+      let n = cnt () in
+      incr i;
+      let pat = ps_unhex (tok ()) in
+      let pl = String.length pat in
+      PsStr (ps_key_of_string (String.init n (fun j -> pat.[j mod pl])))
+    | 'O' -> PsObj (ps_key_of_string (ps_unhex (tok ())), [])
     | 'A' ->
       incr i;
       let items = ref [] in
@@ -73,15 +126,28 @@ let ps_parse s =
       incr i;
       let d = ref [] in
       while s.[!i] <> ')' do
-        let k = ps_key_of_string (hex_dec (tok ())) in
+        let k = ps_key_of_string (ps_unhex (tok ())) in
         incr i;
         let x = value () in
         d := ps_sorted_set k x !d;
         if s.[!i] = ',' then incr i
       done;
       incr i; PsDict !d
+    | 'G' | 'K' | 'W' | 'V' ->
+      let n = cnt () in
+      incr i;
+      let x = value () in
+      incr i;
+      (match c with
+       | 'G' -> PsArr (List.init n (fun _ -> x))
+       | 'K' -> PsDict (List.init n (fun j -> (ps_key_of_string (ps_kname j), x)))
+       | 'W' -> let r = ref x in for _ = 1 to n do r := PsArr [!r] done; !r
+       | _ -> let r = ref x in for _ = 1 to n do r := PsDict [(ps_key_of_string "k", !r)] done; !r)
     | _ -> failwith "bad value syntax" in
   value ()
+
+(* a string argument: hex, or the compact form R<n>x<hex> *)
+let ps_str_arg s = if String.length s > 0 && s.[0] = 'R' then (match ps_parse s with PsStr k -> k | _ -> []) else ps_key_of_string (ps_unhex s)
 
 let ps_k = ps_key_of_string
 let ps_fenv = [
@@ -92,64 +158,107 @@ let ps_fenv = [
   (ps_k "version", { ps_fi_config = false; ps_fi_nomod = true; ps_fi_kind = ps_n_of_int 2 }) ]
 let ps_tenv = [ (ps_k "Host", []); (ps_k "Service", []); (ps_k "CheckResult", []) ]
 
-let ps_obj = ref { ps_m_fields = []; ps_m_orig = None; ps_m_version = Z0 }
-let ps_obj0 = ref !ps_obj
+(* the population: object i is called "<i>" *)
+let ps_oname i = ps_k (string_of_int i)
+let ps_pop : ps_pobj list ref = ref []
+let ps_pop0 : ps_pobj list ref = ref []
+let ps_multi = ref false
 let ps_slots : (string * ps_value) list ref = ref []
 
 let ps_mk_obj vars ci notes orig ver =
   { ps_m_fields = [ (ps_k "check_interval", ci); (ps_k "notes", notes); (ps_k "vars", vars) ]; ps_m_orig = orig; ps_m_version = ver }
 
-let ps_state_line tag ok (o : ps_mobj) =
+let ps_state_line tag ok i (o : ps_mobj) =
   let f n = ps_canon (ps_dget (ps_k n) o.ps_m_fields) in
-  Printf.sprintf "%s ok=%d vars=%s ci=%s notes=%s orig=%s ver=%s" tag (if ok then 1 else 0) (f "vars") (f "check_interval") (f "notes")
+  Printf.sprintf "%s%s ok=%d vars=%s ci=%s notes=%s orig=%s ver=%s" tag (if !ps_multi then Printf.sprintf " obj=%d" i else "")
+    (if ok then 1 else 0) (f "vars") (f "check_interval") (f "notes")
     (match o.ps_m_orig with None -> "N" | Some d -> ps_canon (PsDict d)) (zs o.ps_m_version)
 
+let ps_get i = match ps_pop_find (ps_oname i) !ps_pop with Some o -> o | None -> failwith "no such object"
+let ps_emit_pop tag ok = List.iteri (fun i po -> emit (ps_state_line tag ok i po.ps_p_obj)) !ps_pop
+
 let op_ps_mnew a =
-  let vars = if has a "vars" then ps_parse (str a "vars" "N") else PsEmpty in
-  let notes = PsStr (ps_k (hex_dec (str a "notes" "-"))) in
-  let ci = let (m, k) = ps_num_of_string (str a "ci" "300") in PsNum (m, k) in
-  ps_obj := ps_mk_obj vars ci notes None Z0;
-  ps_obj0 := !ps_obj;
+  let n = num a "n" 1 in
+  ps_multi := has a "n";
+  ps_pop := List.init n (fun i ->
+    let sfx = if i = 0 then "" else string_of_int i in
+    let vars = if has a ("vars" ^ sfx) then ps_parse (str a ("vars" ^ sfx) "N") else PsEmpty in
+    let notes = PsStr (ps_k (ps_unhex (str a ("notes" ^ sfx) "-"))) in
+    let ci = let (m, k) = ps_num_of_string (str a ("ci" ^ sfx) "300") in PsNum (m, k) in
+    { ps_p_name = ps_oname i; ps_p_obj = ps_mk_obj vars ci notes None Z0 });
+  ps_pop0 := !ps_pop;
   ps_slots := [];
-  emit (ps_state_line "mnew" true !ps_obj)
+  ps_emit_pop "mnew" true
 
 let op_ps_mod a =
-  let (ok, o) = ps_modify_attribute ps_fenv (ps_k (hex_dec (str a "path" "-"))) (ps_parse (str a "val" "N")) true (z_of_int !now) !ps_obj in
-  ps_obj := o; emit (ps_state_line "mod" ok o)
+  let i = num a "obj" 0 in
+  let (ok, o) = ps_modify_attribute ps_fenv (ps_k (ps_unhex (str a "path" "-"))) (ps_parse (str a "val" "N")) true (z_of_int !now) (ps_get i) in
+  ps_pop := ps_pop_set (ps_oname i) o !ps_pop; emit (ps_state_line "mod" ok i o)
 
 let op_ps_res a =
-  let (ok, o) = ps_restore_attribute ps_fenv (ps_k (hex_dec (str a "path" "-"))) true (z_of_int !now) !ps_obj in
-  ps_obj := o; emit (ps_state_line "res" ok o)
+  let i = num a "obj" 0 in
+  let (ok, o) = ps_restore_attribute ps_fenv (ps_k (ps_unhex (str a "path" "-"))) true (z_of_int !now) (ps_get i) in
+  ps_pop := ps_pop_set (ps_oname i) o !ps_pop; emit (ps_state_line "res" ok i o)
 
+(* DumpModifiedAttributes over the population, the blocks evaluated on the population as configured *)
 let op_ps_dma _ =
-  match ps_dump_modattrs !ps_obj with
+  match ps_pop_dump !ps_pop with
   | None -> emit "dma ok=0"
-  | Some script ->
-    let (ok, o) = ps_replay_modattrs ps_fenv script (!ps_obj).ps_m_version (z_of_int !now) !ps_obj0 in
-    ps_obj := o; emit (ps_state_line "dma" ok o)
+  | Some blocks ->
+    let (ok, r) = ps_pop_replay ps_fenv (z_of_int !now) blocks !ps_pop0 in
+    ps_pop := r; ps_emit_pop "dma" ok
+
+(* stop/start: state file (original_attributes, version) + modified-attributes.conf *)
+let op_ps_restart _ =
+  match ps_pop_restart ps_fenv (z_of_int !now) !ps_pop !ps_pop0 with
+  | None -> emit "rst ok=0 dump-throws"
+  | Some (ok, r) -> ps_pop := r; ps_emit_pop "rst" ok
 
 let ps_set_slot n v = if List.mem_assoc n !ps_slots then ps_slots := List.map (fun (k, x) -> if k = n then (k, v) else (k, x)) !ps_slots
   else ps_slots := !ps_slots @ [(n, v)]
 
-let op_ps_snew _ = ps_slots := []
+let op_ps_snew _ = ps_slots := []; ps_multi := false
 let op_ps_cr a =
   let on = str a "on" "host" in
   ps_set_slot (on ^ ".last_check_result.command") (if has a "cmd" then ps_parse (str a "cmd" "N") else PsEmpty);
-  ps_set_slot (on ^ ".last_check_result.output") (PsStr (ps_k (hex_dec (str a "out" "-"))));
+  ps_set_slot (on ^ ".last_check_result.output") (PsStr (ps_str_arg (str a "out" "-")));
   ps_set_slot (on ^ ".last_check_result.performance_data") (if has a "perf" then ps_parse (str a "perf" "N") else PsEmpty);
   emit "cr res=0"
 let op_ps_ack _ = emit "ack"
 let op_ps_exec a = ps_set_slot (str a "on" "host" ^ ".executions") (ps_parse (str a "val" "N")); emit "exec"
 
 let ps_roundtrip v = ps_deserialize ps_tenv ps_FAState (ps_serialize ps_tenv ps_FAState v)
+let ps_ends n sfx = String.length n >= String.length sfx && String.sub n (String.length n - String.length sfx) (String.length sfx) = sfx
 (* "executions" is a Dictionary::Ptr field: SetField rejects an instantiated object, DeserializeObject then stores null *)
 let ps_roundtrip_slot n v =
   let v' = ps_roundtrip v in
-  let is_exec = String.length n >= 10 && String.sub n (String.length n - 10) 10 = "executions" in
-  match v' with PsObj _ when is_exec -> PsEmpty | _ -> v'
+  match v' with PsObj _ when ps_ends n "executions" -> PsEmpty | _ -> v'
+(* how many containers enclose the slot's value in the record {name,type,update:{..}} of its object *)
+let ps_slot_outer n = if ps_ends n "executions" then 2 else 3
+let ps_slot_obj n = String.sub n 0 (String.index n '.')
+(* a lower bound of the record's JSON length: the bytes of the strings of the value *)
+let rec ps_bytes v = match v with
+  | PsStr s -> List.length s
+  | PsArr l -> List.fold_left (fun acc x -> acc + 1 + ps_bytes x) 2 l
+  | PsDict d -> List.fold_left (fun acc (k, x) -> acc + 4 + List.length k + ps_bytes x) 2 d
+  | _ -> 1
+(* what the read side makes of the record of object [o] given the slots supplied for it: `Lost = skipped (nesting beyond the
+   decoder's limit), `Throws = the frame reader rejects it *)
+let ps_record_fate slots o =
+  let mine = List.filter (fun (n, _) -> ps_slot_obj n = o) slots in
+  let len = List.fold_left (fun acc (_, v) -> acc + ps_bytes v) 0 mine in
+  if not (ps_src_frame_fits (ps_n_of_int len)) then `Throws
+  else if List.exists (fun (n, v) -> not (ps_src_depth_fits (ps_n_of_int (ps_slot_outer n)) (ps_serialize ps_tenv ps_FAState v))) mine then `Lost
+  else `Read
 let op_ps_dumprestore _ =
-  let after = List.map (fun (n, v) -> (n, v, ps_roundtrip_slot n v)) !ps_slots in
-  let diff = List.sort compare (List.filter_map (fun (n, v, v') -> if ps_veqb v v' then None else Some n) after) in
+  let objs = List.sort_uniq compare (List.map (fun (n, _) -> ps_slot_obj n) !ps_slots) in
+  let fates = List.map (fun o -> (o, ps_record_fate !ps_slots o)) objs in
+  let fate n = List.assoc (ps_slot_obj n) fates in
+  let after = List.map (fun (n, v) -> (n, v, if fate n = `Read then ps_roundtrip_slot n v else PsEmpty)) !ps_slots in
+  let throws = List.exists (fun (_, f) -> f = `Throws) fates in
+  let diff = (if throws then ["RESTORE-THROWS"] else [])
+             @ List.sort compare (List.filter_map (fun (o, f) -> if f <> `Read && List.exists (fun (n, v, v') -> ps_slot_obj n = o && not (ps_veqb v v')) after then Some (o ^ ".*") else None) fates
+                                  @ List.filter_map (fun (n, v, v') -> if fate n = `Read && not (ps_veqb v v') then Some n else None) after) in
   emit (Printf.sprintf "rt all=%d diff=%s" (if diff = [] then 1 else 0) (if diff = [] then "-" else String.concat "," diff));
   List.iter (fun (n, _, v') -> emit ("slot " ^ n ^ " " ^ ps_canon v')) after;
   ps_slots := List.map (fun (n, _, v') -> (n, v')) after
@@ -162,17 +271,21 @@ let op_ps_atomic _ =
   List.iter (fun c -> emit ("sys " ^ ps_sys_name c)) (ps_atomic_trace (ps_n_of_int 1) [[ps_n_of_int 1]]);
   emit "sysend"
 let op_ps_kill _ = emit "kill ok=1 loadable=1"
+let op_ps_fault _ = emit "fault ok=1 loadable=1 finished=1"
 
 (* ---------------- oracle: the property evaluated on the IMPLEMENTATION's observations ---------------- *)
 let ps_starts l p = String.length l >= String.length p && String.sub l 0 (String.length p) = p
 
+(* (ok, object index, state) of a mnew/mod/res/dma/rst line; state None for the short failure forms *)
 let ps_parse_state l =
   let t = toks_of l in
   let g k = match tok_val t k with Some v -> v | None -> failwith ("missing " ^ k) in
   let ok = g "ok" = "1" in
-  if List.length t <= 2 then (ok, None) else
+  let i = match tok_val t "obj" with Some v -> int_of_string v | None -> 0 in
+  if tok_val t "vars" = None then (ok, i, None) else
   let orig = match g "orig" with "N" -> None | s -> (match ps_parse s with PsDict d -> Some d | _ -> None) in
-  (ok, Some (ps_mk_obj (ps_parse (g "vars")) (ps_parse (g "ci")) (ps_parse (g "notes")) orig Z0))
+  let ver = try z_of_int (int_of_string (g "ver")) with _ -> z_of_int (-1) in
+  (ok, i, Some (ps_mk_obj (ps_parse (g "vars")) (ps_parse (g "ci")) (ps_parse (g "notes")) orig ver))
 
 let rec ps_is_prefix a b = match a, b with [] , _ -> true | x :: a', y :: b' -> x = y && ps_is_prefix a' b' | _ -> false
 let ps_comparable p q = let a = ps_split p and b = ps_split q in ps_is_prefix a b || ps_is_prefix b a
@@ -182,83 +295,112 @@ let oracle_c14_case script trace =
   let err = ref None in
   let fail m = if !err = None then err := Some m in
   let next () = match !tr with [] -> fail "missing-observation"; "MISSING" | l :: r -> tr := r; if is_bad_line l then fail ("crash " ^ l); l in
-  let initial = ref None and cur = ref None in
-  (* per explicitly modified path: (dict pre-value seen, other comparable successful ops seen) since it became modified *)
-  let open_mods : (ps_key * (bool ref * bool ref)) list ref = ref [] in
+  (* per object index: the configured object, the current object *)
+  let initial : (int, ps_mobj) Hashtbl.t = Hashtbl.create 8 and cur : (int, ps_mobj) Hashtbl.t = Hashtbl.create 8 in
+  let nobj = ref 1 in
+  (* per (object, explicitly modified path): (dict pre-value seen, other comparable successful ops seen) since it became modified *)
+  let open_mods : ((int * ps_key) * (bool ref * bool ref)) list ref = ref [] in
   let slots = ref [] in
+  let vstr z = zs z in
   List.iter (fun line ->
     if !err = None then
     match parse_line line with
-    | Some ("ps_mnew", _) ->
-      let (_, o) = ps_parse_state (next ()) in initial := o; cur := o; open_mods := []; slots := []
+    | Some ("ps_mnew", a) ->
+      nobj := num a "n" 1;
+      Hashtbl.reset initial; Hashtbl.reset cur; open_mods := []; slots := [];
+      for _ = 1 to !nobj do
+        let l = next () in
+        if !err = None then
+          (match ps_parse_state l with
+           | (_, i, Some o) -> Hashtbl.replace initial i o; Hashtbl.replace cur i o
+           | _ -> fail "bad-mnew-line")
+      done
     | Some ("ps_snew", _) -> slots := []
     | Some ("ps_mod", a) ->
       let l = next () in
       if !err = None then begin
-        let p = ps_k (hex_dec (str a "path" "-")) in
-        let (ok, o) = ps_parse_state l in
-        (match !cur, o with
+        let p = ps_k (ps_unhex (str a "path" "-")) in
+        let (ok, i, o) = ps_parse_state l in
+        if i <> num a "obj" 0 then fail "wrong-object-line";
+        (match Hashtbl.find_opt cur i, o with
          | Some pre, Some _ when ok ->
-           List.iter (fun (q, (_, ov)) -> if q <> p && ps_comparable p q then ov := true) !open_mods;
+           List.iter (fun ((j, q), (_, ov)) -> if j = i && q <> p && ps_comparable p q then ov := true) !open_mods;
            let isd = ps_is_dict (ps_get_attr p pre) in
-           (match List.assoc_opt p !open_mods with
+           (match List.assoc_opt (i, p) !open_mods with
             | Some (d, _) -> if isd then d := true
             | None ->
-              let other = List.exists (fun (q, _) -> q <> p && ps_comparable p q) !open_mods in
-              open_mods := (p, (ref isd, ref other)) :: !open_mods)
+              let other = List.exists (fun ((j, q), _) -> j = i && q <> p && ps_comparable p q) !open_mods in
+              open_mods := ((i, p), (ref isd, ref other)) :: !open_mods)
          | _ -> ());
-        if o <> None then cur := o
+        (match o with Some o -> Hashtbl.replace cur i o | None -> ())
       end
     | Some ("ps_res", a) ->
       let l = next () in
       if !err = None then begin
-        let p = ps_k (hex_dec (str a "path" "-")) in
-        let (ok, o) = ps_parse_state l in
+        let p = ps_k (ps_unhex (str a "path" "-")) in
+        let (ok, i, o) = ps_parse_state l in
+        if i <> num a "obj" 0 then fail "wrong-object-line";
         (* restoring a top-level attribute that original_attributes does not list must not change it *)
-        (match !cur, o with
+        (match Hashtbl.find_opt cur i, o with
          | Some pre, Some post when ok && List.length (ps_split p) = 1 && not (ps_orig_mentions p pre) ->
            if not (ps_veqb (ps_get_attr p pre) (ps_get_attr p post)) then
              fail (Printf.sprintf "restore-unmodified path=%s before=%s after=%s" (ps_key_hex p) (ps_canon (ps_get_attr p pre)) (ps_canon (ps_get_attr p post)))
          | _ -> ());
-        (match !initial, o with
+        (match Hashtbl.find_opt initial i, o with
          | Some ini, Some post when ok && !err = None ->
-           List.iter (fun (q, (_, ov)) -> if q <> p && ps_comparable p q then ov := true) !open_mods;
-           (match List.assoc_opt p !open_mods with
+           List.iter (fun ((j, q), (_, ov)) -> if j = i && q <> p && ps_comparable p q then ov := true) !open_mods;
+           (match List.assoc_opt (i, p) !open_mods with
             | Some (d, ov) ->
               let before = ps_get_attr p ini and after = ps_get_attr p post in
               if not (ps_oracle_restore before after (ps_orig_mentions p post)) then
                 fail (Printf.sprintf "restore-mismatch path=%s olddict=%d overlap=%d original=%s got=%s mentioned=%d" (ps_key_hex p)
                         (if !d then 1 else 0) (if !ov then 1 else 0) (ps_canon before) (ps_canon after) (if ps_orig_mentions p post then 1 else 0));
-              open_mods := List.filter (fun (q, _) -> q <> p) !open_mods
+              open_mods := List.filter (fun (k, _) -> k <> (i, p)) !open_mods
             | None -> ())
          | _ -> ());
-        if o <> None then cur := o
+        (match o with Some o -> Hashtbl.replace cur i o | None -> ())
       end
-    | Some ("ps_dma", _) ->
+    | Some (("ps_dma" | "ps_restart") as opn, _) ->
+      let full = opn = "ps_restart" in
       let l = next () in
       if !err = None then begin
-        let (ok, o) = ps_parse_state l in
-        match !cur, o with
-        | _, None -> fail "modattr-dump-failed"
-        | Some pre, Some post ->
-          (* every runtime-modified attribute (= key of original_attributes) has the same value after the reload *)
-          let keys = match pre.ps_m_orig with Some d -> List.map fst d | None -> [] in
-          let post_keys = match post.ps_m_orig with Some d -> List.map fst d | None -> [] in
-          (* C14_history_reload: the reloaded object lists exactly the keys that were listed at the dump (a stale or
-             missing file shows here), and every listed attribute reads as before *)
-          let same = ok && List.for_all (fun k -> ps_veqb (ps_get_attr k pre) (ps_get_attr k post) && ps_orig_mentions k post) keys
-                     && List.for_all (fun k -> List.mem k keys) post_keys in
-          if not same then begin
-            let bad = List.filter (fun k -> not (ps_veqb (ps_get_attr k pre) (ps_get_attr k post) && ps_orig_mentions k post)) keys in
-            match bad with
-            | k :: _ when ok -> fail (Printf.sprintf "modattr-mismatch ok=1 key=%s before=%s after=%s mentioned=%d" (ps_key_hex k)
-                                       (ps_canon (ps_get_attr k pre)) (ps_canon (ps_get_attr k post)) (if ps_orig_mentions k post then 1 else 0))
-            | [] when ok -> fail (Printf.sprintf "modattr-mismatch ok=1 extra-keys listed-after=%s listed-before=%s"
-                                    (String.concat "," (List.map ps_key_hex post_keys)) (String.concat "," (List.map ps_key_hex keys)))
-            | _ -> fail "modattr-mismatch ok=0 reload-failed"
-          end;
-          cur := o; open_mods := []
-        | None, _ -> fail "modattr-no-prestate"
+        let (ok0, _, o0) = ps_parse_state l in
+        if o0 = None then fail (if full then "restart-failed " ^ l else "modattr-dump-failed") else begin
+          let lines = ref [l] in
+          for _ = 2 to !nobj do lines := next () :: !lines done;
+          if !err = None then
+          List.iter (fun l ->
+            let (ok, i, o) = ps_parse_state l in
+            match Hashtbl.find_opt cur i, o with
+            | _, None -> fail "modattr-dump-failed"
+            | None, _ -> fail "modattr-no-prestate"
+            | Some pre, Some post ->
+              (* every runtime-modified attribute (= key of original_attributes) has the same value after the reload *)
+              let keys = match pre.ps_m_orig with Some d -> List.map fst d | None -> [] in
+              let post_keys = match post.ps_m_orig with Some d -> List.map fst d | None -> [] in
+              (* C14_history_reload / C14_population_reload: the reloaded object lists exactly the keys that were listed at the
+                 dump (a stale or missing file shows here), every listed attribute reads as before, and the object has ITS OWN
+                 version back *)
+              let same = ok && List.for_all (fun k -> ps_veqb (ps_get_attr k pre) (ps_get_attr k post) && ps_orig_mentions k post) keys
+                         && List.for_all (fun k -> List.mem k keys) post_keys in
+              if not same then begin
+                let bad = List.filter (fun k -> not (ps_veqb (ps_get_attr k pre) (ps_get_attr k post) && ps_orig_mentions k post)) keys in
+                match bad with
+                | k :: _ when ok -> fail (Printf.sprintf "modattr-mismatch ok=1 key=%s before=%s after=%s mentioned=%d" (ps_key_hex k)
+                                           (ps_canon (ps_get_attr k pre)) (ps_canon (ps_get_attr k post)) (if ps_orig_mentions k post then 1 else 0))
+                | [] when ok -> fail (Printf.sprintf "modattr-mismatch ok=1 extra-keys listed-after=%s listed-before=%s"
+                                        (String.concat "," (List.map ps_key_hex post_keys)) (String.concat "," (List.map ps_key_hex keys)))
+                | _ -> fail "modattr-mismatch ok=0 reload-failed"
+              end
+              else if (keys <> [] || full) && pre.ps_m_version <> post.ps_m_version then
+                fail (Printf.sprintf "modattr-version obj=%d before=%s after=%s" i (vstr pre.ps_m_version) (vstr post.ps_m_version))
+              else if full && not (ps_veqb (PsDict (match pre.ps_m_orig with Some d -> d | None -> []))
+                                           (PsDict (match post.ps_m_orig with Some d -> d | None -> []))) then
+                fail (Printf.sprintf "restart-originals obj=%d" i);
+              Hashtbl.replace cur i post) (List.rev !lines);
+          ignore ok0;
+          open_mods := []
+        end
       end
     | Some ("ps_cr", a) ->
       let l = next () in
@@ -266,8 +408,9 @@ let oracle_c14_case script trace =
       let on = str a "on" "host" in
       let set n v = slots := (n, v) :: List.remove_assoc n !slots in
       set (on ^ ".last_check_result.command") (if has a "cmd" then ps_parse (str a "cmd" "N") else PsEmpty);
-      set (on ^ ".last_check_result.output") (PsStr (ps_k (hex_dec (str a "out" "-"))));
+      set (on ^ ".last_check_result.output") (PsStr (ps_str_arg (str a "out" "-")));
       set (on ^ ".last_check_result.performance_data") (if has a "perf" then ps_parse (str a "perf" "N") else PsEmpty)
+    | Some ("ps_crall", _) -> ignore (next ())
     | Some ("ps_ack", _) -> ignore (next ())
     | Some ("ps_exec", a) -> ignore (next ()); slots := (str a "on" "host" ^ ".executions", ps_parse (str a "val" "N")) :: List.remove_assoc (str a "on" "host" ^ ".executions") !slots
     | Some ("ps_dumprestore", _) ->
@@ -326,6 +469,13 @@ let oracle_c14_case script trace =
         let t = toks_of l in
         if tok_val t "ok" <> Some "1" || tok_val t "loadable" <> Some "1" then fail ("kill-leaves-bad-file " ^ l)
       end
+    | Some ("ps_fault", _) ->
+      let l = next () in
+      if !err = None && not (ps_starts l "fault beyond") then begin
+        let t = toks_of l in
+        if tok_val t "ok" <> Some "1" || tok_val t "loadable" <> Some "1" then fail ("fault-leaves-bad-file " ^ l)
+        else if tok_val t "finished" <> Some "1" then fail ("fault-kills-process " ^ l)
+      end
     | _ -> ()) script;
   !err
 
@@ -334,11 +484,14 @@ let () =
   register_op "ps_mod" op_ps_mod;
   register_op "ps_res" op_ps_res;
   register_op "ps_dma" op_ps_dma;
+  register_op "ps_restart" op_ps_restart;
   register_op "ps_snew" op_ps_snew;
   register_op "ps_cr" op_ps_cr;
+  register_op "ps_crall" (fun a -> emit (Printf.sprintf "crall n=%d" (num a "n" 0)));
   register_op "ps_ack" op_ps_ack;
   register_op "ps_exec" op_ps_exec;
   register_op "ps_dumprestore" op_ps_dumprestore;
   register_op "ps_atomic" op_ps_atomic;
   register_op "ps_kill" op_ps_kill;
+  register_op "ps_fault" op_ps_fault;
   register_oracle "C14" oracle_c14_case
